@@ -3,8 +3,8 @@ package main
 import (
 	"context"
 	"crypto/sha256"
-	"errors"
 	"encoding/hex"
+	"errors"
 	"fmt"
 	"os"
 	"path/filepath"
@@ -19,8 +19,8 @@ import (
 	staticchecker "github.com/attestantio/dirk/services/checker/static"
 	"github.com/attestantio/dirk/services/fetcher"
 	memfetcher "github.com/attestantio/dirk/services/fetcher/mem"
-	"github.com/attestantio/dirk/services/locker"
 	standardlister "github.com/attestantio/dirk/services/lister/standard"
+	"github.com/attestantio/dirk/services/locker"
 	syncmaplocker "github.com/attestantio/dirk/services/locker/syncmap"
 	staticpeers "github.com/attestantio/dirk/services/peers/static"
 	standardprocess "github.com/attestantio/dirk/services/process/standard"
@@ -45,7 +45,9 @@ type nullSender struct{}
 func (nullSender) Prepare(context.Context, *core.Endpoint, string, []byte, uint32, []*core.Endpoint) error {
 	return errors.New("no peers")
 }
-func (nullSender) Execute(context.Context, *core.Endpoint, string) error { return errors.New("no peers") }
+func (nullSender) Execute(context.Context, *core.Endpoint, string) error {
+	return errors.New("no peers")
+}
 func (nullSender) Commit(context.Context, *core.Endpoint, string, []byte) ([]byte, []byte, error) {
 	return nil, nil, errors.New("no peers")
 }
@@ -82,12 +84,13 @@ type world struct {
 	lister   *standardlister.Service
 	process  *standardprocess.Service
 
-	lockWrap func(locker.Service) locker.Service
-	noCache  bool
-	viaGrpc  bool
-	trace    []string
-	cops     []cop
-	parks    []*park
+	lockWrap  func(locker.Service) locker.Service
+	noCache   bool
+	viaGrpc   bool
+	trace     []string
+	cops      []cop
+	parks     []*park
+	yieldSign bool // concurrent runs: yield at sign.enter (steering)
 }
 
 var (
